@@ -227,7 +227,8 @@ func zDeref(v reflect.Value) (reflect.Value, bool) {
 // zResolve is the oracle: plain reflect look-ups, Go's own field promotion rules, no cache.
 func zResolve(root interface{}, steps []zStep) (val reflect.Value, st zStatus, why string) {
 	v := reflect.ValueOf(root)
-	for _, s := range steps {
+	for si, s := range steps {
+		last := si == len(steps)-1
 		if !v.IsValid() {
 			return v, zErr, "step on nil"
 		}
@@ -284,6 +285,9 @@ func zResolve(root interface{}, steps []zStep) (val reflect.Value, st zStatus, w
 				}
 				e := d.MapIndex(reflect.ValueOf(s.Name).Convert(d.Type().Key()))
 				if !e.IsValid() {
+					if !last {
+						return reflect.Value{}, zErr, "step on the nil an absent key yields"
+					}
 					return reflect.Value{}, zNil, "absent key"
 				}
 				v = e
@@ -300,6 +304,9 @@ func zResolve(root interface{}, steps []zStep) (val reflect.Value, st zStatus, w
 			}
 			e := d.MapIndex(reflect.ValueOf(s.I).Convert(d.Type().Key()))
 			if !e.IsValid() {
+				if !last {
+					return reflect.Value{}, zErr, "step on the nil an absent key yields"
+				}
 				return reflect.Value{}, zNil, "absent key"
 			}
 			v = e
